@@ -47,29 +47,18 @@ FindClauses(T, q) ==
       Cl("Find.loc", Agrees(q.lF, IF det THEN FindLoc(par, sp, N, r, FALSE) ELSE weakest)),
       Cl("Find.loc_top", Agrees(q.lT, IF det THEN FindLoc(par, sp, N, r, TRUE) ELSE weakest))}
 
-(* case classes of a find step, computed from the recorded facts (they name the two   *)
-(* known deviations of fst.py as narrowly as the spec can say it):                     *)
-(*  decorator-region:skipped  the rectangle lies in the decorators of node d and every  *)
-(*      answer is None, a proper ancestor of d, or a node inside / equal to the         *)
-(*      rectangle - find_contains_loc descends by `loc`, which excludes decorators      *)
-(*  top-returns-lowest-exact  several nodes share the rectangle as location, the search *)
-(*      did not start at one of them, and the 'top' answers are the LOWEST of them      *)
-(*      (LocFindMC!TopDeviation: the loop returns the highest only if it starts there)  *)
+(* case class of a find step (descriptive only; no class is excused): the rectangle    *)
+(* lies in the decorators of a node (inside its bounding location, before its `loc`),   *)
+(* several nodes share it as location, or it is a plain proper / empty rectangle        *)
 FindClass(T, q) ==
   IF ~QDomain(T, q) THEN "outside"
-  ELSE LET par == ParF(T)  sp == SpF(T)  r == QRect(q)
-           N == ScopePre(par, sp, q.frm)
-           E == ExactSet(sp, N, r)
+  ELSE LET sp == SpF(T)  r == QRect(q)
+           N == ScopePre(ParF(T), sp, q.frm)
            D == {n \in N : LET b == RBloc(T, n) s == RLoc(T, n)
                            IN b # NoSpan /\ b[1] < s[1] /\ Covers(b, r) /\ r[1] < s[1]}
-           okdeco == (UNION {Ancs(par, d) : d \in D}) \cup InSet(sp, N, r) \cup E \cup {0}
-       IN IF D # {}
-          THEN (IF {q.cT, q.cF, q.cTop, q.lF, q.lT} \subseteq okdeco
-                THEN "decorator-region:skipped" ELSE "decorator-region:other")
-          ELSE IF Cardinality(E) > 1 /\ q.frm \notin E
-          THEN (IF {q.cTop, q.lT} \subseteq Lowest(par, E)
-                THEN "top-returns-lowest-exact" ELSE "exact-chain-below-start:other")
-          ELSE IF r[1] < r[2] THEN "proper" ELSE "empty"
+       IN (IF r[1] < r[2] THEN "proper" ELSE "empty")
+          \o (IF D # {} THEN "/in-decorators" ELSE "")
+          \o (IF Cardinality(ExactSet(sp, N, r)) > 1 THEN "/shared-location" ELSE "")
 
 Clauses(e) ==
   CASE e.ev = "node" -> NodeClauses(Tr, e.n)
